@@ -1100,6 +1100,8 @@ def all_scenarios():
                 yield {"features": list(fs), "command": c, "setting": s}
         if "staged_data_gitignore" not in fs:
             yield {"features": list(fs), "command": INIT, "setting": "default"}
+            # `xvc --skip-git init` in the user's Git repository: no Git operation at all (oracle only, like every init run)
+            yield {"features": list(fs), "command": INIT, "setting": "skipgit"}
 
 
 def pick_scenarios(rng, tier):
